@@ -530,7 +530,7 @@ def pipeline_job(job):
     seed, matching, wd = job["seed"], job["matching"], job["dir"]
     rnd = random.Random(seed * 1000003 + MATCHING.index(matching))
     P = mk_params(matching)
-    w = c01_world(seed)
+    w = c01_world(seed, n_chr=job.get("n_chr", 2))
     n = derive_reads(w, P, rnd, job["per_isoform"])
     paths = w.write(os.path.join(wd, "data"))
     out = os.path.join(wd, "out")
@@ -640,7 +640,7 @@ def assignment_cases(jobs):
             cases.append((term, dict(read=name, kind=tr["kind"], label=tr["label"], chr=tr["chr"], exons=rex, source=tr.get("isoform"), derived_from=tr.get("derived_from"),
                                      assignment_type=typ, reported=reported, events=[l["assignment_events"] for l in lines], matching=job["matching"], seed=job["seed"],
                                      annotation={t: exons_by_id[t] for g in world["genes"] if g["chr"] == tr["chr"] for t in g["isoforms"]}, args=job.get("args"), via=job.get("via", "isoquant.py"),
-                                     per_isoform=job["per_isoform"])))
+                                     per_isoform=job["per_isoform"], n_chr=job.get("n_chr", 2))))
     defs = ("Definition PP (j:Z) : params :=\n  match j with\n" + "\n".join(pp) + "\n  | _ => params_of MS_default\n  end.\n" +
             "Definition ann (j c:Z) : list isoform :=\n  match j, c with\n" + "\n".join(annl) + "\n  | _, _ => []\n  end.")
     return PRE_ASSIGN % defs, cases, problems
@@ -649,9 +649,23 @@ CLAUSE = {11: "positive read without a consistent assignment type", 12: "a repor
           13: "full-length read: its source isoform is not among the reported ones", 14: "the source isoform is the only compatible one but the assignment is not unique to it",
           15: "read far from every annotated isoform reported with a consistent type"}
 
+def world_stats(jobs):
+    st = collections.Counter()
+    for job in jobs:
+        gs = job["world"]["genes"]; st["worlds"] += 1; st["genes"] += len(gs); st["isoforms"] += sum(len(g["isoforms"]) for g in gs)
+        st["mono-exonic isoforms"] += sum(1 for g in gs for ex in g["isoforms"].values() if len(ex) == 1)
+        st["genes on -"] += sum(1 for g in gs if g["strand"] == "-")
+        rng = lambda g: (min(e[0] for ex in g["isoforms"].values() for e in ex), max(e[1] for ex in g["isoforms"].values() for e in ex))
+        for i, a in enumerate(gs):
+            for b in gs[i + 1:]:
+                if a["chr"] == b["chr"] and rng(a)[0] <= rng(b)[1] and rng(b)[0] <= rng(a)[1]:
+                    st["overlapping gene pairs"] += 1; st["antisense overlapping gene pairs"] += a["strand"] != b["strand"]
+    return dict(st)
+
 def judge_runs(ctx, jobs, name, stats):
     """Coq evaluates assignment_ok on every read of the finished runs"""
     pre, cases, problems = assignment_cases(jobs)
+    ctx.notes.append("%s annotations: %s" % (name, json.dumps(world_stats(jobs))))
     for kind, tag, rname in problems:
         stats["problem:" + kind] += 1
         if kind != "exons-differ": ctx.notes.append("%s %s: read %s: %s" % (name, tag, rname, kind))
@@ -672,7 +686,7 @@ def run_pipelines(ctx, quick):
     root = PL.scratch("iqc01_"); jobs = []
     for sd in seeds:
         for m in MATCHING:
-            jobs.append(dict(seed=sd, matching=m, dir=os.path.join(root, "w%d_%s" % (sd, m)), per_isoform=10 if quick else 24))
+            jobs.append(dict(seed=sd, matching=m, dir=os.path.join(root, "w%d_%s" % (sd, m)), per_isoform=10 if quick else 24, n_chr=2 if quick else 3))
     for j in jobs: os.makedirs(j["dir"])
     try:
         with ThreadPoolExecutor(8) as ex: jobs = list(ex.map(pipeline_job, jobs))
@@ -690,7 +704,7 @@ def run_pipelines(ctx, quick):
 def run_inprocess(ctx, quick):
     from concurrent.futures import ProcessPoolExecutor
     seeds = [ctx.seed * 100 + 50 + i for i in range(3 if quick else 30)]
-    jobs = [dict(seed=sd, matching=m, per_isoform=12 if quick else 30) for sd in seeds for m in MATCHING]
+    jobs = [dict(seed=sd, matching=m, per_isoform=12 if quick else 30, n_chr=2 if quick else 3) for sd in seeds for m in MATCHING]
     with ProcessPoolExecutor(8) as ex: jobs = list(ex.map(inprocess_job, jobs))
     stats = collections.Counter()
     judge_runs(ctx, jobs, "assignment_ok[in-process]", stats)
@@ -710,7 +724,7 @@ def replay(ctx, rep):
         print("implementation output:", case[1]["impl"])
         mism, viol = ctx.corr("compare_junctions", PRE_CJ, [case], ctype="T"); ctx.corr_report("compare_junctions", mism, viol); return
     if "via" in c and "read" in c:
-        job = dict(seed=c["seed"], matching=c["matching"], per_isoform=c.get("per_isoform", 10))
+        job = dict(seed=c["seed"], matching=c["matching"], per_isoform=c.get("per_isoform", 10), n_chr=c.get("n_chr", 2))
         if c["via"] == "isoquant.py":
             import pipeline as PL
             root = PL.scratch("iqc01_"); job["dir"] = os.path.join(root, "w"); os.makedirs(job["dir"])
@@ -728,10 +742,31 @@ def replay(ctx, rep):
 
 def run(ctx):
     quick = ctx.tier == "quick"
+    import logging
+    logging.getLogger("IsoQuant").setLevel(logging.ERROR)        # classify_assignment warns about every unclassified event type it is shown
     T0 = time.time()
     def lap(what): ctx.notes.append("time %s: %.0f s" % (what, time.time() - T0))
     ctx.prepare("C01.v"); lap("prepare")
+    ctx.assume += [
+        "LEVEL: proof for the decision layers (classification over the regenerated tables, presets, both phases of compare_junctions, exon-elongation subtype, polyA verification, "
+        "the composition for a read that follows an isoform); the end-to-end statement C01_statement (props/C01.v) is PARTIAL: it is decided read by read by Coq evaluating "
+        "assignment_ok on read_assignments.tsv of real runs (isoquant.py) and on the output of the assigner's core run in process, over generated annotations x reads x 4 strategies",
+        "models are validated against the real functions by the unit correspondences of this check (compare_junctions incl. detect_contradiction_type, classify_assignment, "
+        "select_best_among_inconsistent without its nucleotide tie-break, categorize_exon_elongation_subtype, verify_read_ends); profile construction is the subject of C19",
+        "junction lists as IsoQuant builds them: start <= end, sorted, at least one base between consecutive junctions, inside their region, fewer than 2^31 - 1 junctions",
+        "float tests of the comparator re-expressed over Q: d <= min(a, r*x) and float(a) <= float(b)*r for r in {0, 0.2, 0.5, 1}, round(0.2*n) half-to-even (exact for the integer ranges "
+        "that occur; boundary values are part of the correspondence); select_best_among_inconsistent is modelled bit-exactly with primitive floats (correspondence only)",
+        "assignment_ok never demands more than the property: `compatible` allows read ends up to minor_exon_extension beyond the flanking exons; a read is judged as positive only if it "
+        "follows its source isoform strictly (every site within delta, ends inside the exons, every exon at least minimal_exon_overlap long) and clauses 3/4 only if no other annotated "
+        "intron is strictly closer to one of its junctions; as negative only if, for every isoform of the chromosome, it shares no exon, retains an intron longer than 2*micro_intron_length, "
+        "has an end more than 2*minor_exon_extension outside the flanking exon (short introns bridged), or has a long intron that none of the doubled tolerance branches explains; "
+        "everything else is generated but not judged",
+        "the exons column of read_assignments.tsv is taken as the read's alignment (its correctness is C16's subject)"]
     cases, n_small = cj_cases(ctx, quick); lap("compare_junctions cases")
+    ctx.rule("compare_junctions (real JunctionComparator with a real OverlappingFeaturesProfileConstructor): (i) all pairs of junction lists with <= 2 junctions over positions 3..9 "
+             "(%s) x delta 0,1 with scaled-down tolerances, random regions and known-intron sets; (ii) sampled 3-junction lists over 3..12, delta 0..2; (iii) gene-like exon pools with 1-4 isoforms "
+             "(micro introns/exons, alternative sites, mono-exonic isoforms) under the 4 real presets, reads derived by 1-2 of 19 recipes and compared with every isoform; (iv) the witnesses of "
+             "props/C01.v; non-trivial = the implementation returns something other than [none]; every exception of the real function is a case (`Raises`)" % ("2500 sampled" if quick else "exhaustive"))
     hist = collections.Counter(e[0] for _, o in cases if o["impl"][0] == "ok" for e in o["impl"][1])
     ctx.notes.append("compare_junctions event histogram: " + ", ".join("%s=%d" % kv for kv in sorted(hist.items(), key=lambda kv: -kv[1])))
     mism, viol = ctx.corr("compare_junctions", PRE_CJ, cases, shard=250, ctype="T", nontrivial=lambda o: o["impl"][0] == "ok" and any(e[0] != "none" for e in o["impl"][1]))
@@ -758,7 +793,22 @@ def run(ctx):
     ends_stats = c01_ends.run_ends(ctx, quick); lap("read ends")
     if ends_stats: ctx.notes.append("read-end correspondences: %s" % json.dumps(ends_stats, default=str)[:1500])
 
+    ctx.rule("assignment_ok: generated worlds (2 chromosomes quick / 3 thorough, 2-5 genes each on both strands, sometimes overlapping and then possibly antisense, exon pools with 1-8 exons, "
+             "isoforms by exon choice, alternative splice sites at distance 3..150, alternative first/last exons, mono-exonic isoforms) x reads per isoform by recipe - positives: fl, jit (every site "
+             "moved by up to the strategy's delta), del/ins inside an exon, tr5/tr3/trboth (cut inside an exon, terminal pieces down to 1 base), mono, jit+tr, polyA tail at the 3' end when it is kept; "
+             "band (not judged): jitter in (delta, 2*max(delta,max_intron_shift)+3], ends extended by 1..110; negatives: skipped exon(s), extra exon in a long intron, retained intron, splice site "
+             "moved by more than 2*max(delta,max_intron_shift)+8, end moved by more than 2*minor_exon_extension, combinations - x 4 strategies (exact, precise, default, loose), through isoquant.py "
+             "(read_assignments.tsv) and through the assigner's core in process (AlignmentInfo from a pysam record, polyA detection, profiles, assign_to_isoform); Coq decides positive / negative / "
+             "not judged from the geometry alone and evaluates the clauses; non-trivial = judged")
     stats = run_pipelines(ctx, quick); lap("pipelines")
     ctx.notes.append("pipeline verdicts: " + ", ".join("%s=%d" % kv for kv in sorted(stats.items())))
-    stats = run_inprocess(ctx, quick); lap("in-process")
-    ctx.notes.append("in-process verdicts: " + ", ".join("%s=%d" % kv for kv in sorted(stats.items())))
+    stats2 = run_inprocess(ctx, quick); lap("in-process")
+    ctx.notes.append("in-process verdicts: " + ", ".join("%s=%d" % kv for kv in sorted(stats2.items())))
+    tot = stats + stats2
+    judged_pos = sum(v for k, v in tot.items() if k.endswith(":positive-ok")); judged_neg = sum(v for k, v in tot.items() if k.endswith(":negative-ok"))
+    ctx.notes.append("assignment_ok: %d reads judged positive, %d judged negative, %d not judged; per strategy positive/negative: %s" % (
+        judged_pos, judged_neg, sum(v for k, v in tot.items() if k.endswith(":not-judged") and not k.startswith("kind:")),
+        ", ".join("%s %d/%d" % (m, sum(v for k, v in tot.items() if k.startswith(m + ":") and k.endswith("positive-ok")), sum(v for k, v in tot.items() if k.startswith(m + ":") and k.endswith("negative-ok"))) for m in MATCHING)))
+    for m in MATCHING:
+        if not any(k.startswith(m + ":") and k.endswith("positive-ok") for k in tot) or not any(k.startswith(m + ":") and k.endswith("negative-ok") for k in tot):
+            ctx.broken("generator:%s" % m, "no judged positive or no judged negative read under strategy %s: the generator or the specification lost its teeth" % m)
